@@ -347,6 +347,13 @@ func (tb *TB) Add(a, b *Term) *Term {
 	if b.ival != nil && b.ival.Sign() == 0 {
 		return a
 	}
+	// a + (j - a) -> j   (re-basing of quantified indices)
+	if b.Op == "-" && len(b.Args) == 2 && b.Args[1] == a {
+		return b.Args[0]
+	}
+	if a.Op == "-" && len(a.Args) == 2 && a.Args[1] == b {
+		return a.Args[0]
+	}
 	// (x + c1) + c2 -> x + (c1+c2)
 	if b.ival != nil && a.Op == "+" && len(a.Args) == 2 && a.Args[1].ival != nil {
 		return tb.Add(a.Args[0], tb.BigInt(new(big.Int).Add(a.Args[1].ival, b.ival)))
